@@ -175,10 +175,17 @@ class Check(FormulaCheck):
                 res = [rnd.choice(pool) for _ in range(n)]
                 for i, r in enumerate(res):
                     self.e.bind(**{'r_' + L[i]: r})
-            f = 'SWITCH(t_gt,%s%s)' % (','.join('k_%s,r_%s' % (x, x) for x in L[:n]), ',"dflt"' if hasdef else '')
-            exp = next((r for c, r in zip(cases, res) if c == target), 'dflt' if hasdef else 'ERR:#N/A')
+            dflt = 'dflt'
+            dtxt = ',"dflt"'
+            if hasdef and rnd.random() < 0.4:
+                # a default clause that is blank, zero, FALSE or empty text is a default clause all the same
+                dflt = rnd.choice([None, 0, False, '', 0.0])
+                self.e.bind(d_ft=dflt)
+                dtxt = rnd.choice([',d_ft', ',d_ft', ',NULL' if dflt is None else ',d_ft'])
+            f = 'SWITCH(t_gt,%s%s)' % (','.join('k_%s,r_%s' % (x, x) for x in L[:n]), dtxt if hasdef else '')
+            exp = next((r for c, r in zip(cases, res) if c == target), dflt if hasdef else 'ERR:#N/A')
             g = self.ev(f)
-            self.expect('C12/SWITCH', g == exp and (self.is_err(exp) or type(g) is type(exp)), formula=f, target=target, cases=cases, results=res, default=hasdef, got=g, expected=exp)
+            self.expect('C12/SWITCH' + (':falsy-default' if (hasdef and dflt != 'dflt') else ''), (g is None if exp is None else (g == exp and (self.is_err(exp) or type(g) is type(exp)))), formula=f, target=target, cases=cases, results=res, default=hasdef, got=g, expected=exp)
             if exp == 'ERR:#N/A':
                 trio = (self.ev('ISNA(%s)' % f), self.ev('IFNA(%s,"none")' % f), self.ev('ERROR.TYPE(%s)' % f), self.ev('ISERR(%s)' % f))
                 self.expect('C12/SWITCH:no-match-is-not-#N/A-to-ISNA-IFNA-ERROR.TYPE', trio == (True, 'none', 7, False), formula=f, got=trio)
